@@ -218,4 +218,25 @@ func verifC20Publish() {
 	}
 	vAssert(pi == len(patches), "no write other than those for requested stale records")
 	vReach("published")
+	// second publish of the same list after the successful PATCHes were stored:
+	// nothing is current-but-rewritten, nothing else is touched
+	if failPatchAt < 0 && !failZone {
+		for _, p := range patches {
+			for k := range table {
+				if table[k].id == p.recordID {
+					table[k].value = p.value
+				}
+			}
+		}
+		before := len(patches)
+		res2 := cf.PublishECH(context.Background(), targets, cl)
+		vAssert(len(res2) == len(targets), "second publish: one result per record")
+		vAssert(len(patches) == before, "second publish of a current value performs no write")
+		for i, tg := range targets {
+			if i < len(res2) && tg.Zone == "z1" && tg.Name != "missing" && (tg.Name == "n1" || nrec == 2) {
+				vAssert(res2[i].Code == StatusNoChange, "second publish: no change")
+			}
+		}
+		vReach("republished")
+	}
 }
